@@ -605,6 +605,27 @@ pub fn run(cfg: &RunCfg) -> CheckReport {
         }
     });
     rep.part("large-families", super::large::describe(cfg.tier), ex);
+    if rep.has_violation() {
+        return rep;
+    }
+    // long texts with several words per line, CRLF / CR terminators and missing final newlines
+    let pairs = super::richtext::long_pairs(&super::large::all(cfg.tier, cfg.seed), cfg.tier.pick(130, 300));
+    let ex = explore(cfg, pairs.len(), |shard, acc| {
+        let (name, old, new) = &pairs[shard];
+        match check_pair(old.as_bytes(), new.as_bytes(), &[0, 1, 3]) {
+            Verdict::Ok(nt, n, fp) => {
+                if shard % 97 == 0 {
+                    acc.sample(json!({"long_text_pair": name}));
+                }
+                acc.ok(nt, n, fp)
+            }
+            Verdict::Kf1(e) if kf1_listed => acc.known("KF1", || format!("{}: {}", name, e)),
+            Verdict::Kf1(e) | Verdict::Fail(e) => {
+                acc.violation(|| (text_case(old.as_bytes(), new.as_bytes()), format!("{}: {}", name, e)))
+            }
+        }
+    });
+    rep.part("long-texts", json!({"pairs": pairs.len(), "radii": [0, 1, 3], "note": "enumerated family"}), ex);
     rep
 }
 
